@@ -337,10 +337,11 @@ class pairwise:
         s.prev = None
 
     def on_next(s, out, x):
-        if s.has:
-            out.on_next((s.prev, x))
+        had, prev = s.has, s.prev
         s.has = True
         s.prev = x
+        if had:
+            out.on_next((prev, x))
 
     @staticmethod
     def ref(h, t):
@@ -408,11 +409,12 @@ class element_at_or_default:
         return s.found
 
     def on_next(s, out, x):
-        if s.n == s.index:
+        hit = s.n == s.index
+        s.n += 1
+        if hit:
             s.found = True
             out.on_next(x)
             out.on_completed()
-        s.n += 1
 
     def on_completed(s, out):
         if s.has_default:
